@@ -11,6 +11,13 @@ import (
 
 type DatasetResourceListBuilder struct {
 	builderByGraphName map[rdf.GraphNameValue]*ResourceListBuilder
+
+	// graphByBlankNode is the graph in which a blank node was first used as a subject or object.
+	graphByBlankNode map[rdf.BlankNodeIdentifier]rdf.GraphNameValue
+
+	// sharedBlankNodes are used in more than one graph, or as a graph name; it is shared with every graph's builder so
+	// that they keep their identity when exported.
+	sharedBlankNodes map[rdf.BlankNodeIdentifier]struct{}
 }
 
 var _ quads.DatasetWriter = &DatasetResourceListBuilder{}
@@ -19,6 +26,33 @@ var _ DatasetResourceWriter = &DatasetResourceListBuilder{}
 func NewDatasetResourceListBuilder() *DatasetResourceListBuilder {
 	return &DatasetResourceListBuilder{
 		builderByGraphName: map[rdf.GraphNameValue]*ResourceListBuilder{},
+		graphByBlankNode:   map[rdf.BlankNodeIdentifier]rdf.GraphNameValue{},
+		sharedBlankNodes:   map[rdf.BlankNodeIdentifier]struct{}{},
+	}
+}
+
+func (e *DatasetResourceListBuilder) getOrCreateResourceListBuilder(graphName rdf.GraphNameValue) *ResourceListBuilder {
+	builder := e.builderByGraphName[graphName]
+	if builder == nil {
+		builder = NewResourceListBuilder()
+		builder.pinnedBlankNodes = e.sharedBlankNodes
+
+		e.builderByGraphName[graphName] = builder
+	}
+
+	return builder
+}
+
+func (e *DatasetResourceListBuilder) trackBlankNode(graphName rdf.GraphNameValue, t rdf.Term) {
+	bn, ok := t.(rdf.BlankNode)
+	if !ok || bn.Identifier == nil {
+		return
+	}
+
+	if knownGraphName, known := e.graphByBlankNode[bn.Identifier]; !known {
+		e.graphByBlankNode[bn.Identifier] = graphName
+	} else if knownGraphName != graphName {
+		e.sharedBlankNodes[bn.Identifier] = struct{}{}
 	}
 }
 
@@ -48,20 +82,26 @@ func (e *DatasetResourceListBuilder) AddQuad(ctx context.Context, quad rdf.Quad)
 
 func (e *DatasetResourceListBuilder) Add(quads ...rdf.Quad) {
 	for _, quad := range quads {
-		if e.builderByGraphName[quad.GraphName] == nil {
-			e.builderByGraphName[quad.GraphName] = NewResourceListBuilder()
+		e.trackBlankNode(quad.GraphName, quad.Triple.Subject)
+		e.trackBlankNode(quad.GraphName, quad.Triple.Object)
+
+		if graphBlankNode, ok := quad.GraphName.(rdf.BlankNode); ok && graphBlankNode.Identifier != nil {
+			e.sharedBlankNodes[graphBlankNode.Identifier] = struct{}{}
 		}
 
-		e.builderByGraphName[quad.GraphName].Add(quad.Triple)
+		e.getOrCreateResourceListBuilder(quad.GraphName).Add(quad.Triple)
 	}
 }
 
 func (e *DatasetResourceListBuilder) AddDatasetResource(ctx context.Context, resource DatasetResource) error {
-	if e.builderByGraphName[resource.GraphName] == nil {
-		e.builderByGraphName[resource.GraphName] = NewResourceListBuilder()
+	for _, triple := range resource.Resource.NewTriples() {
+		e.Add(rdf.Quad{
+			Triple:    triple,
+			GraphName: resource.GraphName,
+		})
 	}
 
-	return e.builderByGraphName[resource.GraphName].AddResource(ctx, resource.Resource)
+	return nil
 }
 
 func (e *DatasetResourceListBuilder) ToDatasetResourceWriter(ctx context.Context, z DatasetResourceWriter, opts ExportResourceOptions) error {
